@@ -630,8 +630,8 @@ class MustFlow:
             per, muts = fd._arg_atoms_and_muts(t['args'])
             tgt = local_target(self.eng, t)
             for (r, p) in muts:
-                if fd.is_param(r):
-                    continue
+                if fd.is_param(r) and not body.local_ty(r).startswith('&mut '):
+                    continue      # (writes through a `&mut` parameter are events of that parameter: a helper filling the caller's buffer)
                 self.events.setdefault(r, []).append({'b': bi, 'term': True, 'kind': 'mutarg', 'call': t, 'line': t.get('line'), 'target': (r, p)})
 
     def _opref(self, o):
